@@ -183,6 +183,9 @@ def op_sequences(tier):
     A(("rdate",), ("rdate",), ("list",), ("exrule", 2), ("list",), ("rdate",), ("list",))
     A(("rrule", 3), ("between", 100, 500), ("exdate",), ("between", 100, 500))
     A(("rrule", 11), ("next", 1), ("rdate",), ("resume",), ("list",))
+    # an iterator started before a member is added and finished after it must not leave its own total behind
+    A(("rrule", 2), ("next", 1), ("rdate",), ("resume",), ("count",))
+    A(("rrule", 2), ("rdate",), ("next", 1), ("exdate",), ("resume",), ("count",), ("list",))
     if not q:
         A(("rrule", 3), ("rrule", 3), ("list",))
         A(("rrule", 2), ("rrule", 2), ("rrule", 2), ("list",))
